@@ -1,0 +1,21 @@
+// SPDX-FileCopyrightText: 2022-present Intel Corporation
+//
+// SPDX-License-Identifier: Apache-2.0
+
+//go:build verif
+
+// Verification hooks: constructors and wrappers used only by the external verification harness
+// (built with -tags verif).  Nothing here changes the behaviour of the package.
+
+package admin
+
+import (
+	"github.com/onosproject/onos-config/pkg/pluginregistry"
+	"github.com/onosproject/onos-config/pkg/store/v2/configuration"
+	"github.com/onosproject/onos-config/pkg/store/v2/transaction"
+)
+
+// NewServerForVerif returns the admin server without a gRPC listener
+func NewServerForVerif(transactionsStore transaction.Store, configurationsStore configuration.Store, pluginRegistry pluginregistry.PluginRegistry) *Server {
+	return &Server{transactionsStore: transactionsStore, configurationsStore: configurationsStore, pluginRegistry: pluginRegistry}
+}
